@@ -29,6 +29,9 @@ def catalogue():
     ("rows_sparse_cg", rows_scene([4, 3, 3], welds=1, hinges=1, jointeqs=0, cone="elliptic", jacobian="sparse", solver="CG", chain=3), {}),
     ("rows_sleep", rows_scene([3, 3], hinges=1, sleep=True), {}),
     ("boxes_small_capacity", BOXES.format(opt="", flag=""), {"nconmax": 24, "njmax": 80}),
+    # numeric specialisation arguments: the largest contact dimension of the model (elliptic, sparse Newton: cone Hessian blocks sized by it)
+    ("boxes_elliptic_sparse_condim4", BOXES.format(opt='cone="elliptic" jacobian="sparse"', flag="").replace("<worldbody>", '<default><geom condim="4"/></default><worldbody>'), {}),
+    ("boxes_elliptic_sparse_condim6", BOXES.format(opt='cone="elliptic" jacobian="sparse"', flag="").replace("<worldbody>", '<default><geom condim="6"/></default><worldbody>'), {}),
   ]
 
 
@@ -41,12 +44,45 @@ from mujoco_warp._src import warp_util
 prog = json.loads(sys.argv[1]); record = sys.argv[2] == "1"
 events = []
 if record:
-  orig = warp_util.cache_kernel
-  # cache_kernel wrappers are created at import time: interpose on the cache dict instead
-  class Rec(dict):
-    def __setitem__(self, k, v):
-      super().__setitem__(k, v)
-  import functools
+  # every cache_kernel-decorated builder (module attributes of mujoco_warp._src.*) is re-bound to a logging wrapper: one event per LOOKUP with the
+  # key computed exactly as cache_kernel computes it and a description of the builder and its arguments
+  import importlib, pkgutil, functools
+  import mujoco_warp._src as _src
+
+  def _hash_arg(a):
+    if hasattr(a, "size"):
+      return a.size
+    if isinstance(a, list):
+      return hash(tuple(a))
+    return hash(a)
+
+  def _desc(a):
+    if isinstance(a, (bool, int, float, str)) or a is None:
+      return repr(a)
+    if hasattr(a, "item") and getattr(a, "shape", None) == ():
+      return f"{type(a).__name__}({a.item()!r})"
+    if isinstance(a, (list, tuple)):
+      return "[" + ",".join(_desc(x) for x in a) + "]"
+    if hasattr(a, "name") and hasattr(a, "value"):
+      return f"{type(a).__name__}.{a.name}"
+    return getattr(a, "__qualname__", None) or (f"{type(a).__name__}#{a.size}" if hasattr(a, "size") else type(a).__name__ + ":" + repr(a)[:80])
+
+  def _log(fn):
+    inner = fn.__wrapped__
+    @functools.wraps(fn)
+    def w(*args):
+      key = tuple(_hash_arg(x) for x in args) + (hash(inner.__name__),)
+      events.append([repr(key), f"{inner.__module__.split('.')[-1]}.{inner.__qualname__}(" + ", ".join(_desc(x) for x in args) + ")"])
+      return fn(*args)
+    return w
+
+  for mi in pkgutil.iter_modules(_src.__path__):
+    if mi.name.endswith("_test"):
+      continue
+    mod = importlib.import_module("mujoco_warp._src." + mi.name)
+    for nm, obj in list(vars(mod).items()):
+      if callable(obj) and hasattr(obj, "__wrapped__") and getattr(getattr(obj, "__code__", None), "co_filename", "").endswith("warp_util.py") and obj.__code__.co_name == "wrapper" and "func" in obj.__code__.co_freevars:
+        setattr(mod, nm, _log(obj))
 out = []
 for name, xml, kw in prog:
   mjm = mujoco.MjModel.from_xml_string(xml)
@@ -59,11 +95,7 @@ for name, xml, kw in prog:
     h.update(np.ascontiguousarray(a.numpy()).tobytes())
   nacon = int(d.nacon.numpy()[0])
   out.append({"name": name, "hash": h.hexdigest(), "nacon": nacon, "nefc": d.nefc.numpy().tolist(), "qacc0": d.qacc.numpy()[0][:3].tolist()})
-keys = []
-if record:
-  for k in warp_util._KERNEL_CACHE:
-    kern = warp_util._KERNEL_CACHE[k]
-    keys.append([repr(k), getattr(kern, "key", None) or getattr(getattr(kern, "func", None), "__qualname__", "") or type(kern).__name__])
+keys = events
 print("RESULT" + json.dumps({"out": out, "keys": keys}))
 """
 
@@ -96,8 +128,8 @@ INVARIANT EmitProg
 
 def run(ctx: core.Ctx):
   ctx.rule = ("KernelCache.tla: TLC checks DispatchIndependent and KeyInjective over every program of <= 3 model configurations (and shows the as-found "
-              "process-global dispatch list violates DispatchIndependent). TLC enumerates the programs (sequences over a catalogue of 7 configurations "
-              "differing in nativeccd, cone, Jacobian layout, solver, sleeping, capacities); each program runs in a FRESH interpreter and the last "
+              "process-global dispatch list violates DispatchIndependent). TLC enumerates the programs (sequences over a catalogue of 9 configurations "
+              "differing in nativeccd, cone, Jacobian layout, solver, sleeping, capacities, largest contact dimension); each program runs in a FRESH interpreter and the last "
               "model's results (hash of qpos/qvel/qacc/nefc/nacon/overflow after 4 steps, 2 worlds) must equal those of the same model run alone; "
               "the kernel-cache keys of a process that ran the whole catalogue are validated by TLC (CacheTrace.tla)")
   ctx.tlc("MC_KernelCache", "MC_KernelCache_local.cfg", timeout=600)
